@@ -103,6 +103,8 @@ RE_META = re.compile(
     re.IGNORECASE
 )
 
+RE_COMMENT = re.compile(r'<!--.*?-->', re.DOTALL)
+
 RE_ENCODING = re.compile(
     br'encoding\s*=\s*(?:"|\')(?P<encoding>[\w\-]+)(?:"|\')',
     re.IGNORECASE
@@ -147,7 +149,8 @@ def detect_encoding(
     if not isinstance(body, str):
         body = body.decode('ascii', 'ignore')
 
-    match = RE_META.search(body)
+    # a meta element inside a comment is not part of the document
+    match = RE_META.search(RE_COMMENT.sub('', body))
     if match is not None:
         groups = match.groups()
         return groups[0] or groups[2], groups[1] or groups[3]
